@@ -10,7 +10,7 @@
 use std::io::BufRead;
 
 use hashbrown::HashMap;
-use plonky2::field::types::Field;
+use plonky2::field::types::{Field, PrimeField64};
 use plonky2::fri::oracle::PolynomialBatch;
 use plonky2::iop::challenger::Challenger;
 use plonky2::util::timing::TimingTree;
